@@ -6,9 +6,10 @@ PART = {
         "C14_update_composes", "C14_update_composes_impl", "C14_update_assoc", "C14_bit_serial",
         "C14_burst_detected", "C14_burst_detected_spec", "C14_burst_detected_xor",
         "C14_four_bytes_detected", "C14_single_byte_detected", "C14_single_bit_detected")],
-    components=["crc", "pagecrc"],
+    components=["crc", "pagecrc", "crccold"],
     fidelity={"Impl.Crc32": "exact"},
-    rule="crc: all lengths 0..257 (thorough 0..1025) x alignment x fill kind; all splits of strings <= 24 bytes + "
+    rule="crccold: 6 (thorough 24) fresh processes whose FIRST checksum calls come from 8/16 threads released by a barrier (value must be the IEEE check value) + cold verifying readers on a file written by another process || " 
+         "crc: all lengths 0..257 (thorough 0..1025) x alignment x fill kind; all splits of strings <= 24 bytes + "
          "random splits; crc_dmg: every single bit / every position of a solid and of a two-ends 32-bit burst in a "
          "19-byte message, random bursts (any length, start, width 1..32) in messages up to 64 (thorough 300) bytes, "
          "real checksum must change; pagecrc: 5 (thorough 20) carquet-written files over 5 codecs, every page body: single bits, byte changes, random bursts <= 32 bits and two-ends 32-bit windows (thorough: every bit of pages <= 96 bytes) x {fread, mmap, buffer}: verification on must report an error, the clean file must not, verification off must stay memory-safe (forked child); distinct = distinct (op, input bytes)",
